@@ -98,7 +98,7 @@ def describe(family, program):
             return '%s [%s]' % ('AdapterRegistry' if program[0] == 0 else 'VerifyingAdapterRegistry', RP.fmt([alpha[i] for i in program[1:]]))
         if family == 'cmp':
             k = ['InterfaceClass', 'Implements', 'None', 'foreign(name,module)', 'foreign(name)', 'tuple', 'Interface', 'foreign(non-str)',
-                 'InterfaceClass subclass']
+                 'InterfaceClass subclass', 'handle with own __eq__/__ne__']
             return '%s(%r,%r) vs %s(%r,%r)' % (k[program[0]], TP.CMP_STR[program[1]], TP.CMP_STR[program[2]], k[program[3]],
                                               TP.CMP_STR[program[4]], TP.CMP_STR[program[5]])
         if family == 'odd':
@@ -233,7 +233,7 @@ HARNESSES = [
        'from both registries before and after each step'),
     _h('d_cmp', make_cmp, dict(names=4, mods=3), dict(names=7, mods=4),
        'comparison programs: ordered pairs of operands from {InterfaceClass, Implements, None, foreign objects with/without/with non-string '
-       '__name__/__module__, tuple, Interface, InterfaceClass subclass} x names x modules (fresh string objects); all six operators through '
+       '__name__/__module__, tuple, Interface, InterfaceClass subclass, a handle with its own __eq__/__ne__ and no name} x names x modules (fresh string objects); all six operators through '
        'operator.* and the dunder, both directions, self, hash, sorted()', parts=9),
     _h('d_odd', make_odd, {}, {},
        'protocol programs: objects whose __providedBy__ / __provides__ / __implemented__ are absent, a specification, a declaration, None, a '
